@@ -13,6 +13,11 @@
 (*        the time fields hold).  Transaction: all 2^15 subsets; header:   *)
 (*        up to MaxAbsent absent / up to 2 present, time-field variants;   *)
 (*        group: header subsets x group subsets; block; transaction list.  *)
+(*   cardinality: repeated fields with 0, 1, 2, limit-1, limit, limit+1    *)
+(*        elements for the limits the node enforces when it builds them.   *)
+(*   [op |-> "retain", kind, cls, inter]  serialise, keep the bytes, let a *)
+(*        different value be serialised in between (same / other           *)
+(*        goroutine), then parse the kept bytes.                           *)
 (* Theorems: one pass is idempotent on classes, lands in the producible    *)
 (* classes, keeps the content of producible classes and keeps hashed       *)
 (* fields of producible classes exactly.                                   *)
@@ -60,6 +65,27 @@ PairsOf(kind, i) ==
           ELSE { [op |-> "rt", kind |-> kind, cls |-> [g \in {K[i][1], K[j][1]} |-> IF g = K[i][1] THEN c1 ELSE c2]] :
                    c1 \in ClassesOf(K[i][2]), c2 \in ClassesOf(K[j][2]) }
           : j \in (i + 1)..Len(K) }
+(* cardinality boundaries of the repeated fields ("#<field>" |-> number of elements) *)
+Card(kind, key, n) == [op |-> "rt", kind |-> kind, cls |-> [g \in {key} |-> ToString(n)]]
+CardCases ==
+  { Card("block", "#txs", n) : n \in CardPoints(TxCountPerBlock) }
+  \cup { Card("txs", "#list", n) : n \in CardPoints(TxCountPerBlock) }
+  \cup { Card("header", "#Transactions", n) : n \in CardPoints(TxCountPerBlock) }
+  \cup { Card("header", "#EvictedTxs", n) : n \in CardPoints(TxCountPerBlock) }
+  \cup { Card("header", "#RequestIds", n) : n \in {0, 1, 2, 50} }
+  \cup { Card("group", "#Members", n) : n \in CardPoints(GroupMaxMembers) \cup CardPoints(GroupMinMembers) }
+  \cup { Card("tx", "#SubTransactions", n) : n \in {0, 1, 2, 50} }
+CardKeys == {"#txs", "#list", "#Transactions", "#EvictedTxs", "#RequestIds", "#Members", "#SubTransactions", "#a"}
+
+(* retention: serialise the value, keep the bytes, serialise a different value of the same kind in
+   between (inter), then parse the kept bytes *)
+RetainCases ==
+  { [op |-> "retain", kind |-> k, cls |-> [g \in {"#a"} |-> "typ"], inter |-> i] :
+      k \in Kinds \cup {"member"}, i \in Interleavings \ {"none"} }
+  \cup { [op |-> "retain", kind |-> k, cls |-> [g \in {key} |-> ToString(n)], inter |-> i] :
+           <<k, key>> \in {<<"block", "#txs">>, <<"txs", "#list">>}, n \in {0, 2, TxCountPerBlock}, i \in Interleavings \ {"none"} }
+  \cup { [op |-> "rt", kind |-> "member", cls |-> [g \in {f} |-> cl]] : f \in {"Id", "PubKey"}, cl \in ClassesOf("bytes") \ {"nil"} }      \* both are `required` in x.proto
+
 BlockShapes == { [op |-> "rt", kind |-> "block", cls |-> [g \in {"#txs"} |-> n]] : n \in {"nil", "empty", "two"} }
 
 (* ------------------------------------------------------------- presence *)
@@ -118,7 +144,7 @@ OddPresence ==
 (* ------------------------------------------------------------ state space *)
 Seeds == UNION { { [op |-> "seed", fam |-> "rt", kind |-> k, i |-> i] : i \in 1..Len(KeysOf(k)) } : k \in Kinds }
          \cup { [op |-> "seed", fam |-> "txp", low |-> l] : l \in SUBSET (1..4) }
-         \cup { [op |-> "seed", fam |-> f] : f \in {"headerp", "groupp", "blockp", "txsp", "blockshape", "oddp"} }
+         \cup { [op |-> "seed", fam |-> f] : f \in {"headerp", "groupp", "blockp", "txsp", "blockshape", "oddp", "card", "retain"} }
 
 CasesOf(s) ==
   CASE s.fam = "rt" -> Singles(s.kind, s.i) \cup PairsOf(s.kind, s.i)
@@ -129,6 +155,8 @@ CasesOf(s) ==
     [] s.fam = "txsp" -> TxsPresence
     [] s.fam = "blockshape" -> BlockShapes
     [] s.fam = "oddp" -> OddPresence
+    [] s.fam = "card" -> CardCases
+    [] s.fam = "retain" -> RetainCases
 
 Init == phase = 0 /\ c \in Seeds
 Next == phase = 0 /\ phase' = 1 /\ c' \in CasesOf(c)
@@ -149,11 +177,17 @@ ASSUME \A fk \in AllFieldKinds : \A cl \in ClassesOf(fk) : ClassTheorems(fk, cl)
 KindOfKey(kind, key) == LET K == KeysOf(kind)
                             i == CHOOSE j \in 1..Len(K) : K[j][1] = key IN K[i][2]
 Theorems == phase = 1 =>
-  IF c.op = "rt" THEN \A key \in DOMAIN c.cls : key = "#txs" \/ ClassTheorems(KindOfKey(c.kind, key), c.cls[key])
+  IF c.op \in {"rt", "retain"} THEN
+       /\ \A key \in DOMAIN c.cls : key \in CardKeys \/ c.kind = "member" \/ ClassTheorems(KindOfKey(c.kind, key), c.cls[key])
+       /\ (c.op = "retain" => \A y \in {"another value"} : Retained(c.cls, y, c.inter) = c.cls)
   ELSE /\ ParseRef(c.kind, c.present, c.hpresent, c.txs, c.tv) \in {"object", "error"}
        /\ (c.kind = "tx" /\ c.present = TxNums => ParseRef(c.kind, c.present, c.hpresent, c.txs, c.tv) = "object")
        /\ (c.kind = "header" /\ c.present = HeaderNums /\ c.tv = "valid"
              => ParseRef(c.kind, c.present, c.hpresent, c.txs, c.tv) = "object")
+
+(* the codec has no cardinality limit, and the retention dimension is not vacuous *)
+ASSUME \A n \in CardPoints(TxCountPerBlock) \cup CardPoints(GroupMaxMembers) : NormCard(n) = n /\ ParseCard(n) = "object"
+ASSUME \E i \in Interleavings : AliasedRetained("x", "y", i) # Retained("x", "y", i)
 
 Dump == phase = 1 => PrintT(<<"CASE", ToJson(c)>>)
 =============================================================================
